@@ -90,8 +90,18 @@ def check_loops(p, report, funcs, facts, rule21="R2.1", rule22="R2.2", only=None
             else:
                 # mask of earlier picks (accumulator not yet updated with the
                 # pick of this iteration)
-                report.add(rule21, ent, f"{loop_id}: mask `{norm_stmt(m, 70)}` of earlier picks", f"{f.file}:{m.lineno}", True,
-                           detail="indexed by the accumulator before it is updated with the current pick")
+                before_sel = dominates(tree, m, s_stmt) and m is not s_stmt
+                in_ret = T in retu
+                # a mask of the EARLIER picks placed after the selection neither excludes them from this
+                # step's selection nor leaves the winner a number in its own row
+                other_excl = any(b_ == T and st_ is not m and dominates(tree, st_, s_stmt)
+                                 for (st_, b_, k_) in c01.exclusion_statements(L, pick_names))
+                okm = before_sel or not in_ret or other_excl
+                report.add(rule21, ent, f"{loop_id}: mask `{norm_stmt(m, 70)}` of earlier picks", f"{f.file}:{m.lineno}", okm,
+                           detail="indexed by the accumulator before it is updated with the current pick; precedes the selection"
+                           if okm else
+                           "the mask of the earlier picks is applied after this step's selection: the selection still sees "
+                           "them (duplicates) and a re-selected winner is NaN in its own row")
                 n21 += 1
                 # R2.2: a mask of earlier picks on the returned row must be
                 # matched by an exclusion in the operand of the selection
@@ -267,6 +277,7 @@ def run(p, report, tier):
     c01.check_exclusion_mechanisms(p, sub, funcs, facts)
     c01.check_carried_exclusion(p, sub, funcs, facts)
     c01.check_nan_reductions(p, report, funcs, "R1.3")
+    c01.check_full_length_constants(p, report, funcs, facts, "R1.3")
     from . import c08
     c08.check_shrinking_pool(p, sub, funcs, "R1.6")
     check_zero_mask_preserved(p, report, funcs, facts)
@@ -275,7 +286,11 @@ def run(p, report, tier):
                 "of P between the store and the draw, or every definition of P is a view of / computed from the "
                 "values of the returned rows (shape-only constructors do not count)", floor=3)
     check_sampled_is_recorded(p, report, funcs, facts)
+    report.rule("R2.5", "the selection primitive behind every max-selection breaks ties only among EXACT maxima: "
+                "rand_argmax masks with equality to the NaN-aware optimum (shared with C18 R18.1)", floor=4)
+    from . import c18
+    c18.check_argmax_primitives(p, report, "R2.5")
     report.assumptions += [
         "statement order inside a loop body is judged by structural dominance (no goto)",
-        "the numerical arg-max relation itself is the contract of rand_argmax (C18)",
+        "the numerical arg-max relation itself is the contract of rand_argmax (decided structurally by R2.5 / C18)",
     ]
